@@ -858,10 +858,9 @@ Proof.
     destruct (Hval p2 ltac:(rewrite V2; f_equal; symmetry; exact Eyk)) as (p3 & m & R3 & V3).
     exists (set_state p3 SFlowSequenceEntry). split; [|eapply view_set_state; exact V3].
     eapply run_cons; [exact E1|].
-    eapply steps_app.
-    { apply run_steps. rewrite E2. exact R2. }
-    eapply steps_app.
-    { apply run_steps. rewrite (sm_fsem_value p2 (view_state _ _ _ _ _ _ _ _ V2)). exact R3. }
-    econstructor; [|constructor].
-    rewrite (sm_fsem_end p3 m (view_state _ _ _ _ _ _ _ _ V3)). reflexivity.
+    eapply steps_app; [eapply steps_app|].
+    + apply run_steps. rewrite E2. exact R2.
+    + apply run_steps. rewrite (sm_fsem_value p2 (view_state _ _ _ _ _ _ _ _ V2)). exact R3.
+    + econstructor; [|constructor].
+      rewrite (sm_fsem_end p3 m (view_state _ _ _ _ _ _ _ _ V3)). reflexivity.
 Qed.
